@@ -64,7 +64,7 @@ func (e *kvElection) validationLoop(ctx context.Context) {
 					e.cfg.Metrics.IncTokenValidationFailures(e.getMetricsLabels())
 				}
 				if consecutiveFailures >= maxFailures {
-					e.handleValidationFailure(err)
+					e.handleValidationFailureOfTerm(ctx, err)
 					return
 				}
 				continue
@@ -82,7 +82,7 @@ func (e *kvElection) validationLoop(ctx context.Context) {
 				if e.cfg.Metrics != nil {
 					e.cfg.Metrics.IncTokenValidationFailures(e.getMetricsLabels())
 				}
-				e.handleValidationFailure(ErrTokenInvalid)
+				e.handleValidationFailureOfTerm(ctx, ErrTokenInvalid)
 				return
 			}
 
@@ -95,6 +95,26 @@ func (e *kvElection) validationLoop(ctx context.Context) {
 			}
 		}
 	}
+}
+
+// handleValidationFailureOfTerm is handleValidationFailure for the periodic
+// validation loop, which serves one term: it leaves a later term alone.
+func (e *kvElection) handleValidationFailureOfTerm(termCtx context.Context, err error) {
+	if termCtx.Err() != nil {
+		return
+	}
+	log := e.getLogger()
+	log.Error("demoting_due_to_validation_failure",
+		append(e.logWithContext(e.logCtx()),
+			zap.Error(err),
+			zap.String("error_type", classifyErrorType(err)),
+		)...,
+	)
+
+	if !e.becomeFollowerOfTerm(termCtx) {
+		return
+	}
+	e.runOnDemote("token_validation_failure")
 }
 
 func (e *kvElection) handleValidationFailure(err error) {
